@@ -23,7 +23,7 @@ REQUIRED_REACH = {'*': ['cuts', 'cuts_inside_delete_create_cycle', 'master_resta
 
 def run(ctx):
     for idx, rng in ctx.cases():
-        pf = mdrv.MProfile(n_steps=(6, 14), restart_every=0.2)
+        pf = mdrv.MProfile(n_steps=(6, 14), restart_every=0.2, p_read_fault=(0.5, 0.1))
         h = mengine.MHistory(ctx, rng, pf, ['C09'])
         h.d.cutter = crash.CutSession(h, ctx)
         # C09-level violations of the un-crashed run are C09's business
